@@ -5,6 +5,12 @@ CONSTANTS
   AsFound_NaNExitsLoop = FALSE
   AsFound_DecorativeAfterAppend = TRUE
   AsFound_NoSweepAtBigTolerance = FALSE
+  MaxRetries = 0
+  CapBoost = 3
+  SweepAlphabet <- MC_AllSweeps
+  DecoAlphabet <- MC_AllDeco
+  BigChoices <- MC_BothBig
+  LaggedRecordedAtSetup = FALSE
 INVARIANT TypeOK
 INVARIANT C02_SolvedOnlyIfConverged
 INVARIANT C02_SolvedOnlyAfterSweep
